@@ -291,4 +291,142 @@ def hdrNew (vtable : Nat) : Nat := vtable
 def hdrWord (bits vtable color : Nat) (needsTrace live : Bool) : Nat :=
   hdrSetColor bits (hdrSetLive bits (hdrSetNeedsTrace bits (hdrNew vtable) needsTrace) live) color
 
+/-! ## `GcHeader` fields and the collector's bookkeeping writes
+
+`GcHeader` (src/gc_ptr.rs) has exactly two fields, each one machine word wide:
+`next: Cell<Option<GcPtr>>` and `tagged_vtable: Cell<*const GcVtable>`.  Both are private to
+`gc_ptr.rs`; the only code that stores to them is `GcHeader::new` (through
+`header_ptr.write(..)` in `GcPtr::alloc`) and the four `&self` mutators `set_next`, `set_color`,
+`set_needs_trace`, `set_live`, which `context.rs` / `gc.rs` call through `GcPtr::header()`
+(= `value_ptr - size_of::<GcHeader>()`).  The only other store `GcPtr::alloc` performs is
+`meta_ptr.write(ptr_meta)`.  These are the `CollectorWrite`s below: each is a store of bytes at
+an address computed from the value pointer, the header layout and the field offset.  The field
+order of a `repr(Rust)` struct is the compiler's choice, so the offsets are parameters
+(`HeaderFields`), constrained only by "a field lies inside its struct" (`HeaderFields.Fits`). -/
+
+/-- Little-endian bytes of a `n`-byte word. -/
+def wordBytes : Nat → Nat → List Nat
+  | 0, _ => []
+  | n + 1, w => (w % 256) :: wordBytes n (w / 256)
+
+/-- The word stored in a list of little-endian bytes. -/
+def bytesWord : List Nat → Nat
+  | [] => 0
+  | b :: bs => b + 256 * bytesWord bs
+
+/-- Load an `n`-byte word (`Cell::get`). -/
+def readWord (m : Nat → Nat) (addr n : Nat) : Nat := bytesWord (readCells m addr n)
+
+/-- Where the two fields of `GcHeader` sit inside the struct. -/
+structure HeaderFields where
+  /-- `size_of::<usize>()` -/
+  word : Nat
+  /-- offset of `next: Cell<Option<GcPtr>>` -/
+  nextOff : Nat
+  /-- offset of `tagged_vtable: Cell<*const GcVtable>` -/
+  vtableOff : Nat
+deriving DecidableEq, Repr
+
+/-- Both fields lie inside a struct of layout `hdr` (true of every Rust struct layout). -/
+def HeaderFields.Fits (f : HeaderFields) (hdr : Layout) : Prop :=
+  f.nextOff + f.word ≤ hdr.size ∧ f.vtableOff + f.word ≤ hdr.size
+
+instance (f : HeaderFields) (hdr : Layout) : Decidable (f.Fits hdr) := by
+  unfold HeaderFields.Fits; exact inferInstance
+
+/-- Declaration order (what rustc 1.95 picks on x86-64; the harness locates the vtable word at
+    run time instead of assuming this). -/
+def declOrderFields (word : Nat) : HeaderFields := ⟨word, 0, word⟩
+
+/-- The four `&self` mutators of `GcHeader`: the only stores to an allocated block's header after
+    `GcPtr::alloc` returned. -/
+inductive HeaderWrite where
+  /-- `GcHeader::set_color` (the two-bit colour code) -/
+  | setColor (c : Nat)
+  /-- `GcHeader::set_needs_trace` -/
+  | setNeedsTrace (b : Bool)
+  /-- `GcHeader::set_live` -/
+  | setLive (b : Bool)
+  /-- `GcHeader::set_next` (`0` = `None`, otherwise the erased value pointer of the next block) -/
+  | setNext (next : Nat)
+deriving DecidableEq, Repr
+
+/-- One store: start address and the bytes stored. -/
+structure Store where
+  lo : Nat
+  bytes : List Nat
+deriving DecidableEq, Repr
+
+/-- Perform a store. -/
+def Store.run (m : Nat → Nat) (s : Store) : Nat → Nat := writeCells m s.lo s.bytes
+
+/-- The store a header mutator performs on the block whose header is at `hp`, given the current
+    memory (`Cell::update` reads the tagged word, changes the field's bits, stores it back). -/
+def HeaderWrite.store (f : HeaderFields) (bits hp : Nat) (m : Nat → Nat) : HeaderWrite → Store
+  | .setColor c =>
+    ⟨hp + f.vtableOff, wordBytes f.word (hdrSetColor bits (readWord m (hp + f.vtableOff) f.word) c)⟩
+  | .setNeedsTrace b =>
+    ⟨hp + f.vtableOff,
+      wordBytes f.word (hdrSetNeedsTrace bits (readWord m (hp + f.vtableOff) f.word) b)⟩
+  | .setLive b =>
+    ⟨hp + f.vtableOff, wordBytes f.word (hdrSetLive bits (readWord m (hp + f.vtableOff) f.word) b)⟩
+  | .setNext n => ⟨hp + f.nextOff, wordBytes f.word n⟩
+
+/-- Every store the collector side of the crate performs on one allocated block. -/
+inductive CollectorWrite where
+  /-- `GcPtr::alloc`: `meta_ptr.write(ptr_meta)` (`enc` = the bytes of the metadata value); precedes
+      the initialisation of the value -/
+  | writeMeta (enc : List Nat)
+  /-- `GcPtr::alloc`: `header_ptr.write(GcHeader::new(vtable))` (`next = None`, untagged vtable) -/
+  | headerNew (vtable : Nat)
+  /-- one of the four `GcHeader` mutators, called by `context.rs` / `gc.rs` -/
+  | header (w : HeaderWrite)
+deriving DecidableEq, Repr
+
+/-- The stores of a collector write on the block with value pointer `value`, in order. -/
+def CollectorWrite.stores (f : HeaderFields) (bits : Nat) (hdr mhl pmeta : Layout) (value : Nat)
+    (m : Nat → Nat) : CollectorWrite → List Store
+  | .writeMeta enc => [⟨metaPtr mhl value, enc.take pmeta.size⟩]
+  | .headerNew vt =>
+    [⟨headerPtr hdr value + f.nextOff, wordBytes f.word 0⟩,
+     ⟨headerPtr hdr value + f.vtableOff, wordBytes f.word (hdrNew vt)⟩]
+  | .header w => [w.store f bits (headerPtr hdr value) m]
+
+/-- Perform a collector write. -/
+def CollectorWrite.apply (f : HeaderFields) (bits : Nat) (hdr mhl pmeta : Layout) (value : Nat)
+    (m : Nat → Nat) (w : CollectorWrite) : Nat → Nat :=
+  (w.stores f bits hdr mhl pmeta value m).foldl Store.run m
+
+/-- Perform a sequence of collector writes (any number of collections, barriers, links). -/
+def runCollector (f : HeaderFields) (bits : Nat) (hdr mhl pmeta : Layout) (value : Nat)
+    (m : Nat → Nat) : List CollectorWrite → Nat → Nat
+  | [] => m
+  | w :: ws => runCollector f bits hdr mhl pmeta value (w.apply f bits hdr mhl pmeta value m) ws
+
+/-- What can happen to an allocated block after `GcPtr::alloc` returned: a header mutator, or the
+    mutator storing a byte of the value through the `Gc` (at an offset inside the value: safe
+    Rust reaches nothing else through a `&T`). -/
+inductive BlockWrite where
+  | collector (w : HeaderWrite)
+  | mutator (off byte : Nat)
+deriving DecidableEq, Repr
+
+/-- Perform one post-allocation write on the block with value pointer `value` and value layout
+    `v`. -/
+def BlockWrite.apply (f : HeaderFields) (bits : Nat) (hdr v : Layout) (value : Nat)
+    (m : Nat → Nat) : BlockWrite → Nat → Nat
+  | .collector w => (w.store f bits (headerPtr hdr value) m).run m
+  | .mutator off byte => if off < v.size then writeCells m (value + off) [byte] else m
+
+/-- A history of post-allocation writes. -/
+def runHistory (f : HeaderFields) (bits : Nat) (hdr v : Layout) (value : Nat)
+    (m : Nat → Nat) : List BlockWrite → Nat → Nat
+  | [] => m
+  | w :: ws => runHistory f bits hdr v value (w.apply f bits hdr v value m) ws
+
+/-- Memory right after `GcPtr::alloc`: metadata written, header initialised. -/
+def afterAlloc (f : HeaderFields) (bits : Nat) (hdr mhl pmeta : Layout) (value : Nat)
+    (m : Nat → Nat) (enc : List Nat) (vtable : Nat) : Nat → Nat :=
+  runCollector f bits hdr mhl pmeta value m [.writeMeta enc, .headerNew vtable]
+
 end GcArena.Layout
